@@ -45,8 +45,10 @@ Definition trim_prefix (p s : str) : str :=
 Definition cut_before (c : N) (s : str) : str :=
   match index_of c s with Some i => firstn i s | None => s end.
 
+(* config.ToHostname: the TrimPrefix sequence and the Cut byte are regenerated from
+   config.go on every run (Generated/GC18.v, kind c18_trimcut) *)
 Definition to_hostname (addr : str) : str :=
-  cut_before slash (trim_prefix (b "https://") (trim_prefix (b "http://") addr)).
+  cut_before toHostname_cut (fold_left (fun a p => trim_prefix p a) toHostname_prefixes addr).
 
 (* ---------- credentials ---------- *)
 Record cred := { c_user : str; c_pass : str; c_refresh : str; c_access : str }.
@@ -87,8 +89,28 @@ Inductive op :=
    tokens, which are written as JSON strings, are valid UTF-8) and a server
    address that is valid UTF-8 (it becomes a JSON object key).  Username and
    password travel base64-encoded and may hold any bytes. *)
-Definition put_accepts (a : str) (c : cred) : bool :=
-  negb (contains colon (c_user c)) && valid_utf8 a && valid_utf8 (c_refresh c) && valid_utf8 (c_access c).
+Definition cred_field (name : str) (c : cred) : str :=
+  if str_eqb name (b "Username") then c_user c
+  else if str_eqb name (b "Password") then c_pass c
+  else if str_eqb name (b "RefreshToken") then c_refresh c
+  else if str_eqb name (b "AccessToken") then c_access c
+  else [].
+
+(* validateCredentialFormat, interpreted from its regenerated tables (kind c18_credchecks) *)
+Definition validate_credential_format (c : cred) : bool :=
+  forallb (fun fr => negb (contains (snd fr) (cred_field (fst fr) c))) validateCredentialFormat_norune &&
+  forallb (fun f => valid_utf8 (cred_field f c)) validateCredentialFormat_utf8.
+
+(* one guard of FileStore.Put (kind c18_putguards); DisablePut is a switch of the store
+   ([fs_step]); a guard this model does not know refuses everything, which breaks
+   Proofs/CredFile.v put_accepts_spec *)
+Definition put_guard (a : str) (c : cred) (g : str) : bool :=
+  if str_eqb g (b "DisablePut") then true
+  else if str_eqb g (b "call:validateCredentialFormat") then validate_credential_format c
+  else if str_eqb g (b "utf8:serverAddress") then valid_utf8 a
+  else false.
+
+Definition put_accepts (a : str) (c : cred) : bool := forallb (put_guard a c) fileStorePut_guards.
 
 Record mem := { m_content : fdoc; m_cache : list (str * entry); m_cs : str }.
 
